@@ -142,7 +142,9 @@ fn build_doc(s: &Sch, id: u64, d: &Value) -> TantivyDocument {
         doc.add_facet(f("fa"), Facet::from_path(segs));
     }
     if let Some(streams) = d.get("j").and_then(|x| x.as_array()) {
-        let mut obj: Vec<(String, OwnedValue)> = vec![];
+        // a leaf may name the JSON value ("obj": 0, 1, 2 ...) of the document it belongs to: the document
+        // then holds several values for the JSON field, which share paths
+        let mut objs: Vec<Vec<(String, OwnedValue)>> = vec![];
         for st in streams {
             let path: Vec<String> = st["path"].as_array().unwrap().iter().map(|x| x.as_str().unwrap().to_string()).collect();
             for v in st["vals"].as_array().unwrap() {
@@ -153,11 +155,17 @@ fn build_doc(s: &Sch, id: u64, d: &Value) -> TantivyDocument {
                 } else {
                     OwnedValue::Bool(v["o"].as_bool().unwrap())
                 };
-                json_insert(&mut obj, &path, ov);
+                let k = v.get("obj").and_then(|x| x.as_u64()).unwrap_or(0) as usize;
+                while objs.len() <= k {
+                    objs.push(vec![]);
+                }
+                json_insert(&mut objs[k], &path, ov);
             }
         }
-        if !obj.is_empty() {
-            doc.add_field_value(f("j"), &OwnedValue::Object(obj));
+        for obj in objs {
+            if !obj.is_empty() {
+                doc.add_field_value(f("j"), &OwnedValue::Object(obj));
+            }
         }
     }
     doc
